@@ -11,6 +11,7 @@ import (
 	"time"
 
 	"github.com/deepteams/webp/animation"
+	"github.com/deepteams/webp/internal/verifhook"
 	"github.com/deepteams/webp/verifx/vx"
 )
 
@@ -28,6 +29,7 @@ type animEncInput struct {
 	Durs   []int // milliseconds
 	Opts   animation.EncodeOptions
 	Origin string
+	Choice string // "" | "prefer" | "avoid" | "random": how the size-dependent dispose-candidate decision is overridden (hook)
 }
 
 // replayable form of an input history
@@ -40,10 +42,11 @@ type animEncReplay struct {
 	Durs   []int
 	Opts   animation.EncodeOptions
 	Origin string
+	Choice string
 }
 
 func (in animEncInput) replay() animEncReplay {
-	r := animEncReplay{CW: in.CW, CH: in.CH, Durs: in.Durs, Opts: in.Opts, Origin: in.Origin}
+	r := animEncReplay{CW: in.CW, CH: in.CH, Durs: in.Durs, Opts: in.Opts, Origin: in.Origin, Choice: in.Choice}
 	for _, p := range in.Pics {
 		r.Pics = append(r.Pics, struct {
 			W, H int
@@ -54,7 +57,7 @@ func (in animEncInput) replay() animEncReplay {
 }
 
 func (r animEncReplay) input() animEncInput {
-	in := animEncInput{CW: r.CW, CH: r.CH, Durs: r.Durs, Opts: r.Opts, Origin: r.Origin}
+	in := animEncInput{CW: r.CW, CH: r.CH, Durs: r.Durs, Opts: r.Opts, Origin: r.Origin, Choice: r.Choice}
 	for _, p := range r.Pics {
 		im := image.NewNRGBA(image.Rect(0, 0, p.W, p.H))
 		for k, v := range p.Pix {
@@ -66,7 +69,7 @@ func (r animEncReplay) input() animEncInput {
 }
 
 func (in animEncInput) sig() string {
-	s := fmt.Sprintf("%s|%dx%d|n%d|lossless=%v|mixed=%v|q%d|k%d,%d|loop%d", in.Origin, in.CW, in.CH, len(in.Pics), in.Opts.Lossless, in.Opts.AllowMixed, in.Opts.Quality, in.Opts.Kmin, in.Opts.Kmax, in.Opts.LoopCount)
+	s := fmt.Sprintf("%s%s|%dx%d|n%d|lossless=%v|mixed=%v|q%d|k%d,%d|loop%d", in.Origin, map[string]string{"": "", "prefer": "+dispose-bg-forced", "avoid": "+dispose-bg-avoided", "random": "+dispose-bg-by-coin"}[in.Choice], in.CW, in.CH, len(in.Pics), in.Opts.Lossless, in.Opts.AllowMixed, in.Opts.Quality, in.Opts.Kmin, in.Opts.Kmax, in.Opts.LoopCount)
 	for i, p := range in.Pics {
 		s += fmt.Sprintf("|%x/%d", hashNRGBA(p)&0xffffff, in.Durs[i])
 	}
@@ -129,6 +132,11 @@ func runAnimEncoder(id, mode string, in animEncInput) (file []byte, line tvEncLi
 	}()
 	var buf bytes.Buffer
 	o := in.Opts
+	// both dispose candidates of a sub-frame are valid encodings; the encoder takes the smaller one. The hook lets the
+	// check take the other branch too, whatever the sizes happen to be.
+	verifhook.SetChoice("anim.dispose-background", in.Choice)
+	verifhook.SeedChoices(int64(len(in.Pics))*7919 + int64(in.CW*131+in.CH))
+	defer verifhook.SetChoice("anim.dispose-background", "")
 	e := animation.NewEncoder(&buf, in.CW, in.CH, &o)
 	if e == nil {
 		return nil, line, fmt.Errorf("NewEncoder returned nil")
@@ -371,6 +379,19 @@ func checkAnimEnc(prop string, args []string) {
 	if max := run.Pick(150, 3000); len(genCases) > max {
 		genCases = genCases[:max]
 	}
+	// coverage-directed histories: the model marks the situations in which the two dispose candidates of a sub-frame
+	// differ in blend mode (with a proper sub-rectangle); only histories that pass through one are kept
+	if run.Replay == "" {
+		dir := vx.MustTLC(vx.TLCOpts{Module: "AnimEnc", Cfg: "GEN_AnimEncDirected.cfg", Workers: 1, Simulate: fmt.Sprintf("num=%d", run.Pick(30, 300)), Depth: 7, Seed: run.Seed + 11, Timeout: 60 * time.Minute})
+		run.AddTLC(dir)
+		dc := dir.Tagged("CASE")
+		rng.Shuffle(len(dc), func(i, j int) { dc[i], dc[j] = dc[j], dc[i] })
+		if max := run.Pick(120, 2500); len(dc) > max {
+			dc = dc[:max]
+		}
+		run.Cov["coverage_directed_histories"] = len(dc)
+		genCases = append(genCases, dc...)
+	}
 	for _, raw := range genCases {
 		if run.Replay != "" {
 			break
@@ -457,6 +478,19 @@ func checkAnimEnc(prop string, args []string) {
 		inputs = append(inputs, in)
 	}
 
+	// every history also runs with the dispose-candidate decision forced (alternately towards DISPOSE_BACKGROUND
+	// whenever that candidate exists, and away from it)
+	if run.Replay == "" {
+		n0 := len(inputs)
+		for i := 0; i < n0; i++ {
+			if len(inputs[i].Pics) < 2 {
+				continue
+			}
+			c := inputs[i]
+			c.Choice = []string{"random", "avoid", "random", "prefer"}[i%4]
+			inputs = append(inputs, c)
+		}
+	}
 	var lines []tvEncLine
 	var files []vx.FileCase
 	byID := map[string]animEncInput{}
